@@ -31,7 +31,7 @@ CONSTANTS
 
 def doc_plan(tier):
     if tier == "quick":
-        return [(4, 3, "structure", "default"), (3, 2, "inline", "default"), (3, 2, "code", "default"), (3, 2, "structure", "single"),
+        return [(5, 3, "structure", "default"), (3, 2, "inline", "default"), (3, 2, "code", "default"), (3, 2, "structure", "single"),
                 (2, 2, "inline", "single")]
     return [(6, 3, "structure", "default"), (4, 3, "inline", "default"), (4, 3, "code", "default"), (4, 3, "structure", "single"),
             (3, 2, "inline", "single"), (3, 2, "code", "single"), (3, 2, "structure", "pairs"), (3, 2, "inline", "pairs")]
@@ -43,7 +43,7 @@ def run_doc(ctx, command):
     rc, res, _ = ctx.harness(["doc", command] + [r["out"] for r in rs], timeout=6000)
     ctx.absorb(res)
     conf = confirm_with(ctx, "doc")
-    ctx.candidates = [c for c in ctx.candidates if not str(c["record"].get("kind", "")).startswith("doc-") or conf(c)]
+    ctx.candidates = ctx.keep_confirmed(ctx.candidates, lambda c: (not str(c["record"].get("kind", "")).startswith("doc-")) or conf(c))
 
 
 def run(ctx):
